@@ -16,7 +16,7 @@ from ..runner import ok, violation, known, discard, Outcome
 from ..rdfmodel import XSD, XSD_STRING, LANGSTRING
 
 PID = "C06"
-RULE = ("Bounded-exhaustive: every literal content of <=3 (quick) / <=5 (thorough) tokens over a 22-token adversarial "
+RULE = ("Bounded-exhaustive: every literal content of <=3 (quick) / <=5 (thorough) tokens over a 24-token adversarial "
         "alphabet x 6 suffixes x 4 tails, separators/subject forms cycled; plus Hypothesis documents (1-5 lines, content "
         "<=12 tokens, IRI/bnode objects, comment lines).  Oracle: abstract triples (kind, IRI, bnode label, datatype), order, "
         "error_triples==0; rdflib cross-checks the generator.  Non-trivial: literal contains a special token or has a suffix, "
@@ -36,7 +36,7 @@ from shexer.model.property import Property as MProperty  # noqa
 
 # (escaped text, is "special")
 TOKENS = ["a", " ", '\\"', "\\\\", "@", "^^", "#", " .", "<", ">", "xsd:", "geo:", "rdf:", "dt:", "%", "1", "_", "_:",
-          "é", "\\u00E9", ".", ":"]
+          "é", "\\u00E9", ".", ":", "\u2028", "\u0085"]
 PLAIN_TOKENS = {"a", "1"}
 SUFFIXES = [("", XSD_STRING), ("@en", LANGSTRING), ("@en-GB", LANGSTRING),
             ("^^<" + XSD + "int>", XSD + "int"), ("^^<http://ex.org/dt/custom>", "http://ex.org/dt/custom"),
